@@ -501,8 +501,13 @@ def c17_runs(ctx, binp):
         req_at = [n_idle + rng.randint(6, 10)]                       # inside the motion recording
         if k % 2 == 1:
             req_at.append(n_idle + n_motion + settings["min"] * fps + 6)   # long after it, while idle (non-overlapping: > 21 frames later)
+        fast = (k % 4 == 3) or (ctx.tier == "quick" and k == 1)
+        if fast:
+            # two non-overlapping requests only 24 frames apart, frames delivered much faster than real time (a test
+            # recording is 21 frames, however little wall-clock time they take)
+            req_at = [req_at[0], req_at[0] + 24]
         conn = dict(header=dict(ResX=w, ResY=h, FPS=fps, FrameSize=fsize, Model="lepton3", Brand="flir", CameraSerial=2, Firmware="1.0.0"),
-                    payload=base64.b64encode(bytes(payload)).decode(), cuts=[], settle_ms=60, pace_at=pace, pace_ms=5,
+                    payload=base64.b64encode(bytes(payload)).decode(), cuts=[], settle_ms=60, pace_at=pace, pace_ms=(1 if fast else 5),
                     dbus=[dict(at_byte=fsize * a, member="TakeTestRecording") for a in req_at])
         scen = dict(config=toml(settings), prefiles=[], conns=[conn])
         try:
@@ -676,15 +681,15 @@ def c13_runs(ctx, binp):
     return runs
 
 
-def c10_startup(ctx, binp):
+def c10_startup(ctx, binp, const=False):
     """C10 through runMain: debris of a crashed run (temp + scratch files, next to a complete recording) is in the output
     directory when the daemon starts; before the first recording is made only the complete recording may be left."""
     rng = ctx.rng
     settings, fps = gen_settings(rng)
-    settings["const"] = False
+    settings["const"] = const          # the debris in the output directory goes whatever other recorders are configured
     conn, ev, fid = build_conn(rng, settings, 4, 3, fps, "lepton3", 1, 12, with_clear=False)
     pre = ["20200101.000000.000.cptv.temp", "20200101.000000.000.cptv.temp.tmp", "20200102.010101.111.cptv.temp",
            "20200103.020202.222.cptv.temp.tmp"]
-    evs = run_e2e(ctx, binp, dict(config=toml(settings), prefiles=pre, conns=[conn]), "c10_startup")
+    evs = run_e2e(ctx, binp, dict(config=toml(settings), prefiles=pre, conns=[conn]), "c10_startup%d" % int(const))
     st = [e for e in evs if e["ev"] == "e2e-startup"]
     return [dict(name=f["name"], kind=f["kind"], decodes=bool(f.get("decodes", False))) for f in (st[0]["files"] if st else [])], pre
